@@ -26,7 +26,7 @@ RULE = (
     '(targets whose documentation or whose callers inside chi pass a numpy Generator as seed: error / population / the '
     'four predictive models; not PAM and sample_initial_parameters, documented int only): the bit-generator state '
     'changes in each call, two successive calls differ, and both equal the calls made with a fresh equally seeded '
-    'generator under another global state. Independence (40% of the cases, 15% for the three entry points whose sampler is a Python loop per row; n1 = 20000 rows (5000 for hierarchical posteriors with covariate models), stage 2 80000, derived '
+    'generator under another global state. Independence (40% of the cases, 15% for the three entry points whose sampler is a Python loop per row; n1 = 20000 rows (5000 for posteriors / population predictive models with covariate models), stage 2 80000, derived '
     'seeds, vf/stats.py two-stage rule on rank-based normal scores): standardised noise of different outputs / time '
     'points / dimensions (columns) is uncorrelated and not identical, successive samples / individuals (rows, lag 1) '
     'are uncorrelated; data-frame entry points use 50 sample ids x n/50 time points with (nearly) constant parameters '
@@ -734,7 +734,8 @@ def check(case):
     # ---- independence within one call ---------------------------------------------------
     if s['indep'] and noise is not None:
         n1 = 20000
-        if entry in ('hlp', 'flp'):
+        if entry in ('hlp', 'flp', 'poppred'):
+            # covariate models sample row by row in Python (the truncated Gaussian at ~0.3 ms per draw)
             pop = s['target']['hier']['pop'] if entry == 'hlp' else s['target']['pop']
             n1 = 5000 if popgen.has(pop, 'cov') else 20000
 
